@@ -495,4 +495,541 @@ theorem optValue_query (spec : OptSpec) (hs : spec.toInt = true) (os : List UOpt
   | none => rfl
   | some n => simp [hs, pyInt_toDec, Except.map]
 
+/-! ### character classes of a rendered URI -/
+
+theorem alnum_range (c : Char) (h : c.isAlphanum = true) : 48 ≤ c.toNat ∧ c.toNat ≤ 122 := by
+  simp only [Char.isAlphanum, Char.isAlpha, Char.isUpper, Char.isLower, Char.isDigit, Bool.or_eq_true,
+    Bool.and_eq_true, decide_eq_true_eq, UInt32.le_iff_toNat_le] at h
+  have : c.toNat = c.val.toNat := rfl
+  have e1 : 'A'.val.toNat = 65 := rfl
+  have e2 : 'Z'.val.toNat = 90 := rfl
+  have e3 : 'a'.val.toNat = 97 := rfl
+  have e4 : 'z'.val.toNat = 122 := rfl
+  have e5 : '0'.val.toNat = 48 := rfl
+  have e6 : '9'.val.toNat = 57 := rfl
+  have e7 : (48 : UInt32).toNat = 48 := rfl
+  have e8 : (57 : UInt32).toNat = 57 := rfl
+  omega
+
+/-- every character a rendered URI can contain -/
+def urlCh (c : Char) : Bool :=
+  c.isAlphanum || ['_', '.', '-', '~', '%', ':', '/', '?', '[', ']', '@', '&', '='].contains c
+
+theorem urlCh_of_alnum (c : Char) (h : c.isAlphanum = true) : urlCh c = true := by simp [urlCh, h]
+
+theorem urlCh_range (c : Char) (h : urlCh c = true) : 37 ≤ c.toNat ∧ c.toNat ≤ 126 := by
+  simp only [urlCh, Bool.or_eq_true, List.contains_cons, List.contains_nil, Bool.or_false, beq_iff_eq] at h
+  rcases h with h | h
+  · have := alnum_range c h; omega
+  · rcases h with h | h | h | h | h | h | h | h | h | h | h | h | h <;> subst h <;> decide
+
+theorem urlCh_safe (c : Char) (h : urlCh c = true) : unsafeChar c = false := by
+  have hr := urlCh_range c h
+  simp only [unsafeChar, Bool.or_eq_false_iff, beq_eq_false_iff_ne]
+  refine ⟨⟨?_, ?_⟩, ?_⟩ <;> (rintro rfl; revert hr; decide)
+
+theorem urlCh_of_tok (c : Char) (h : tok c = true) : urlCh c = true := by
+  simp only [tok, Bool.or_eq_true, beq_iff_eq] at h
+  rcases h with ((((h | h) | h) | h) | h) | h
+  · exact urlCh_of_alnum c h
+  all_goals (subst h; decide)
+
+def hostCh (c : Char) : Bool := c.isAlphanum || c == '-' || c == '.' || c == '_'
+def v6Ch (c : Char) : Bool := c.isAlphanum || c == ':' || c == '.'
+
+theorem urlCh_of_hostCh (c : Char) (h : hostCh c = true) : urlCh c = true := by
+  simp only [hostCh, Bool.or_eq_true, beq_iff_eq] at h
+  rcases h with ((h | h) | h) | h
+  · exact urlCh_of_alnum c h
+  all_goals (subst h; decide)
+
+theorem urlCh_of_v6Ch (c : Char) (h : v6Ch c = true) : urlCh c = true := by
+  simp only [v6Ch, Bool.or_eq_true, beq_iff_eq] at h
+  rcases h with (h | h) | h
+  · exact urlCh_of_alnum c h
+  all_goals (subst h; decide)
+
+theorem urlCh_of_digit (c : Char) (h : c.isDigit = true) : urlCh c = true :=
+  urlCh_of_alnum c (by simp [Char.isAlphanum, h])
+
+theorem filter_safe (s : Str) (h : ∀ x ∈ s, urlCh x = true) :
+    s.filter (fun c => !unsafeChar c) = s := by
+  rw [List.filter_eq_self]
+  intro x hx
+  simp [urlCh_safe x (h x hx)]
+
+def httpPrefix (tls : Bool) : Str :=
+  if tls then ['h', 't', 't', 'p', 's', ':', '/', '/'] else ['h', 't', 't', 'p', ':', '/', '/']
+
+def httpScheme (tls : Bool) : Str := if tls then ['h', 't', 't', 'p', 's'] else ['h', 't', 't', 'p']
+
+theorem httpPrefix_urlCh (tls : Bool) : ∀ x ∈ httpPrefix tls, urlCh x = true := by
+  cases tls <;> decide
+
+theorem cleanUrl_http (tls : Bool) (r : Str) (h : ∀ x ∈ r, urlCh x = true) :
+    cleanUrl (httpPrefix tls ++ r) = httpPrefix tls ++ r := by
+  have hall : ∀ x ∈ httpPrefix tls ++ r, urlCh x = true := by
+    intro x hx
+    rcases List.mem_append.1 hx with hx | hx
+    · exact httpPrefix_urlCh tls x hx
+    · exact h x hx
+  unfold cleanUrl
+  have : (httpPrefix tls ++ r).dropWhile c0OrSpace = httpPrefix tls ++ r := by
+    cases tls <;> simp [httpPrefix, List.dropWhile, c0OrSpace]
+  rw [this, filter_safe _ hall]
+
+theorem splitScheme_http (tls : Bool) (r : Str) :
+    splitScheme (httpPrefix tls ++ r) = (httpScheme tls, '/' :: '/' :: r) := by
+  cases tls <;>
+    simp [httpPrefix, httpScheme, splitScheme, takeUntil, dropUntil, schemeChar, List.contains_cons]
+
+theorem splitNetloc_parts (NL REST : Str) (hNL : ∀ x ∈ NL, netlocDelim x = false)
+    (hR : REST = [] ∨ ∃ c t, REST = c :: t ∧ netlocDelim c = true) :
+    splitNetloc ('/' :: '/' :: (NL ++ REST)) = (NL, REST) := by
+  simp only [splitNetloc, List.take, beq_self_eq_true, if_true, List.drop]
+  rcases hR with rfl | ⟨c, t, rfl, hc⟩
+  · have := takeUntil_none netlocDelim NL hNL
+    simp [this]
+  · have := takeUntil_stop netlocDelim NL c t hNL hc
+    simp [this]
+
+/-! ### urlsplit on a rendered URI -/
+
+theorem tok_props (x : Char) (h : tok x = true) :
+    x ≠ '?' ∧ x ≠ '#' ∧ x ≠ ';' ∧ x ≠ '/' ∧ x ≠ ':' ∧ x ≠ '@' ∧ x ≠ '[' ∧ x ≠ ']' :=
+  ⟨class_ne tok x _ h (by decide), class_ne tok x _ h (by decide), class_ne tok x _ h (by decide),
+   class_ne tok x _ h (by decide), class_ne tok x _ h (by decide), class_ne tok x _ h (by decide),
+   class_ne tok x _ h (by decide), class_ne tok x _ h (by decide)⟩
+
+def qCh (x : Char) : Bool := x.isAlphanum || x == '=' || x == '&'
+
+theorem urlCh_of_qCh (c : Char) (h : qCh c = true) : urlCh c = true := by
+  simp only [qCh, Bool.or_eq_true, beq_iff_eq] at h
+  rcases h with (h | h) | h
+  · exact urlCh_of_alnum c h
+  all_goals (subst h; decide)
+
+/-- shape of a rendered path: absent, or '/' followed by quoted text -/
+def PathOk (PATH : Str) : Prop := PATH = [] ∨ ∃ t, PATH = '/' :: t ∧ ∀ x ∈ t, tok x = true
+
+theorem urlsplit_parts (v6ok : Str → Bool) (tls : Bool) (NL PATH : Str) (os : List UOpt)
+    (hNL : ∀ x ∈ NL, urlCh x = true ∧ netlocDelim x = false)
+    (hbr : NL.contains '[' = NL.contains ']' ∧ (NL.contains '[' = true → v6ok (bracketed NL) = true))
+    (hP : PathOk PATH) :
+    urlsplit v6ok (httpPrefix tls ++ (NL ++ (PATH ++ renderQuery os))) =
+      .ok ⟨httpScheme tls, NL, PATH, queryText os, []⟩ := by
+  have hQ := queryText_class os
+  -- character facts
+  have hPu : ∀ x ∈ PATH, urlCh x = true ∧ x ≠ '?' ∧ x ≠ '#' := by
+    intro x hx
+    rcases hP with rfl | ⟨t, rfl, ht⟩
+    · simp at hx
+    · rcases List.mem_cons.1 hx with rfl | hx
+      · decide
+      · have := tok_props x (ht x hx)
+        exact ⟨urlCh_of_tok x (ht x hx), this.1, this.2.1⟩
+  have hQu : ∀ x ∈ renderQuery os, urlCh x = true ∧ x ≠ '#' := by
+    intro x hx
+    rw [renderQuery_eq] at hx
+    split at hx
+    · simp at hx
+    · rcases List.mem_cons.1 hx with rfl | hx
+      · decide
+      · have := hQ x hx
+        exact ⟨urlCh_of_qCh x this, class_ne qCh x '#' this (by decide)⟩
+  have hall : ∀ x ∈ NL ++ (PATH ++ renderQuery os), urlCh x = true := by
+    intro x hx
+    simp only [List.mem_append] at hx
+    rcases hx with hx | hx | hx
+    · exact (hNL x hx).1
+    · exact (hPu x hx).1
+    · exact (hQu x hx).1
+  have hR : PATH ++ renderQuery os = [] ∨
+      ∃ c t, PATH ++ renderQuery os = c :: t ∧ netlocDelim c = true := by
+    rcases hP with rfl | ⟨t, rfl, _⟩
+    · rw [renderQuery_eq]
+      split
+      · exact Or.inl rfl
+      · exact Or.inr ⟨'?', _, rfl, by decide⟩
+    · exact Or.inr ⟨'/', _, rfl, by decide⟩
+  have hfrag : partition '#' (PATH ++ renderQuery os) = (PATH ++ renderQuery os, false, []) :=
+    partition_none '#' _ (by
+      intro x hx
+      rcases List.mem_append.1 hx with hx | hx
+      · exact (hPu x hx).2.2
+      · exact (hQu x hx).2)
+  have hquery : partition '?' (PATH ++ renderQuery os) = (PATH, !(os == []), queryText os) := by
+    rw [renderQuery_eq]
+    cases os with
+    | nil =>
+      simp only [if_true, List.append_nil]
+      rw [partition_none '?' PATH (fun x hx => (hPu x hx).2.1)]
+      rfl
+    | cons o os =>
+      simp only [reduceCtorEq, if_false]
+      rw [partition_found '?' PATH _ (fun x hx => (hPu x hx).2.1)]
+      rfl
+  have hascii : isAscii NL = true := by
+    simp only [isAscii, List.all_eq_true, decide_eq_true_eq]
+    intro x hx
+    have := urlCh_range x (hNL x hx).1
+    omega
+  unfold urlsplit
+  rw [cleanUrl_http tls _ hall, splitScheme_http]
+  simp only []
+  rw [splitNetloc_parts NL _ (fun x hx => (hNL x hx).2) hR]
+  simp only [hbr.1, bne_self_eq_false, Bool.false_eq_true, if_false]
+  have hv : (NL.contains ']' && !v6ok (bracketed NL)) = false := by
+    cases h : NL.contains ']' with
+    | false => rfl
+    | true => simp [hbr.2 (hbr.1.trans h)]
+  simp only [hv, Bool.false_eq_true, if_false, hfrag, hquery, hascii, Bool.not_true]
+
+/-! ### specification side: well-formed components and the parameters they state -/
+
+def Host.text : Host → Str
+  | .name h => h
+  | .v6 h => h
+
+/-- a host as the property's quantifier describes it: a non-empty registered name / IPv4 literal
+    over letters, digits, '-', '.', '_', or an IPv6 literal (hex digits, ':' and '.') that the
+    bracket check (`v6ok`, i.e. Python's `ipaddress`) accepts -/
+def Host.WF (v6ok : Str → Bool) : Host → Prop
+  | .name h => h ≠ [] ∧ ∀ x ∈ h, hostCh x = true
+  | .v6 h => h ≠ [] ∧ (∀ x ∈ h, v6Ch x = true) ∧ v6ok h = true
+
+structure Components.WF (v6ok : Str → Bool) (c : Components) : Prop where
+  host : ∀ h, c.host = some h → h.WF v6ok
+  port : ∀ n, c.port = some n → 0 < n ∧ n ≤ 65535
+
+def guest : Str := ['g', 'u', 'e', 's', 't']
+def localhost : Str := ['l', 'o', 'c', 'a', 'l', 'h', 'o', 's', 't']
+
+/-- a credential / vhost component: the stated text, or the default when absent or empty -/
+def orDefault (x : Option Str) (d : Str) : Str :=
+  match x with
+  | none => d
+  | some u => if u = [] then d else u
+
+def firstHb : List UOpt → Option Nat
+  | [] => none
+  | .heartbeat n :: _ => some n
+  | .timeout _ :: r => firstHb r
+
+def firstTmo : List UOpt → Option Nat
+  | [] => none
+  | .timeout n :: _ => some n
+  | .heartbeat _ :: r => firstTmo r
+
+/-- the parameters a URI rendered from `c` states (documented defaults written out literally) -/
+def expected (c : Components) : Params where
+  hostname := match c.host with
+    | none => localhost
+    | some h => h.text.map Char.toLower
+  username := orDefault c.user guest
+  password := orDefault c.pass guest
+  port := match c.port with
+    | none => if c.tls then 5671 else 5672
+    | some n => n
+  virtualHost := orDefault c.vhost ['/']
+  heartbeat := .int (match firstHb c.opts with | some n => n | none => 60)
+  timeout := .int (match firstTmo c.opts with | some n => n | none => 10)
+  ssl := c.tls
+
+theorem firstOpt_hb (os : List UOpt) :
+    firstOpt ['h', 'e', 'a', 'r', 't', 'b', 'e', 'a', 't'] os = firstHb os := by
+  induction os with
+  | nil => rfl
+  | cons o os ih =>
+    cases o with
+    | heartbeat n => simp [firstOpt, firstHb, optKey, optNum]
+    | timeout n =>
+      simp only [firstOpt, firstHb, List.find?_cons] at ih ⊢
+      have : (optKey (.timeout n) == ['h', 'e', 'a', 'r', 't', 'b', 'e', 'a', 't']) = false := by
+        simp only [optKey]; decide
+      simp [this, ih]
+
+theorem firstOpt_tmo (os : List UOpt) :
+    firstOpt ['t', 'i', 'm', 'e', 'o', 'u', 't'] os = firstTmo os := by
+  induction os with
+  | nil => rfl
+  | cons o os ih =>
+    cases o with
+    | timeout n => simp [firstOpt, firstTmo, optKey, optNum]
+    | heartbeat n =>
+      simp only [firstOpt, firstTmo, List.find?_cons] at ih ⊢
+      have : (optKey (.heartbeat n) == ['t', 'i', 'm', 'e', 'o', 'u', 't']) = false := by
+        simp only [optKey]; decide
+      simp [this, ih]
+
+/-! ### netloc -/
+
+theorem partition_port (h : Str) (hh : ∀ x ∈ h, x ≠ ':') (port : Option Nat) :
+    partition ':' (h ++ renderPort port) = (h, port.isSome, (port.map toDec).getD []) := by
+  cases port with
+  | none => simpa [renderPort] using partition_none ':' h hh
+  | some n => simpa [renderPort] using partition_found ':' h (toDec n) hh
+
+theorem portText (port : Option Nat) :
+    (if (port.map toDec).getD [] = [] then none else some ((port.map toDec).getD [])) = port.map toDec := by
+  cases port with
+  | none => rfl
+  | some n => simp [toDec_ne_nil]
+
+theorem renderPort_class (port : Option Nat) :
+    ∀ x ∈ renderPort port, (x.isDigit || x == ':') = true := by
+  intro x hx
+  cases port with
+  | none => simp [renderPort] at hx
+  | some n =>
+    simp only [renderPort, List.mem_cons] at hx
+    rcases hx with rfl | hx
+    · decide
+    · simp [toDec_digits n x hx]
+
+def pCh (x : Char) : Bool := x.isDigit || x == ':'
+
+theorem urlCh_of_pCh (c : Char) (h : pCh c = true) : urlCh c = true := by
+  simp only [pCh, Bool.or_eq_true, beq_iff_eq] at h
+  rcases h with h | h
+  · exact urlCh_of_digit c h
+  · subst h; decide
+
+/-- `_hostinfo` on the host/port part -/
+theorem hostinfoRaw_hp (host : Option Host) (port : Option Nat) (v6ok : Str → Bool)
+    (hw : ∀ h, host = some h → h.WF v6ok) :
+    hostinfoRaw (renderHost host ++ renderPort port) =
+      ((host.map Host.text).getD [], (port.map toDec).getD []) := by
+  unfold hostinfoRaw
+  have hp := renderPort_class port
+  cases host with
+  | none =>
+    simp only [renderHost, List.nil_append, Option.map_none, Option.getD_none]
+    have h1 := partition_none '[' _ (ne_of_class (K := pCh) hp '[' (by decide))
+    have h2 := partition_port [] (by simp) port
+    simp only [List.nil_append] at h2
+    simp only [h1, h2]
+  | some h =>
+    cases h with
+    | name h =>
+      have hwf := hw _ rfl
+      simp only [Host.WF] at hwf
+      simp only [renderHost, Option.map_some, Option.getD_some, Host.text]
+      have hno : ∀ x ∈ h ++ renderPort port, x ≠ '[' := by
+        intro x hx
+        rcases List.mem_append.1 hx with hx | hx
+        · exact class_ne hostCh x _ (hwf.2 x hx) (by decide)
+        · exact class_ne pCh x _ (hp x hx) (by decide)
+      simp only [partition_none '[' _ hno, partition_port h (ne_of_class hwf.2 ':' (by decide)) port]
+    | v6 h =>
+      have hwf := hw _ rfl
+      simp only [Host.WF] at hwf
+      simp only [renderHost, Option.map_some, Option.getD_some, Host.text, List.cons_append,
+        List.append_assoc, List.nil_append]
+      have h1 := partition_found '[' [] (h ++ (']' :: renderPort port)) (by simp)
+      simp only [List.nil_append] at h1
+      have h2 := partition_found ']' h (renderPort port) (ne_of_class hwf.2.1 ']' (by decide))
+      have h3 := partition_port [] (by simp) port
+      simp only [List.nil_append] at h3
+      simp only [h1, h2, h3]
+
+theorem hostinfo_hp (UI : Str) (host : Option Host) (port : Option Nat) (v6ok : Str → Bool)
+    (hw : ∀ h, host = some h → h.WF v6ok)
+    (hr : (rpartition '@' (UI ++ (renderHost host ++ renderPort port))).2.2 =
+      renderHost host ++ renderPort port) :
+    hostinfo (UI ++ (renderHost host ++ renderPort port)) =
+      ((host.map Host.text).getD [], port.map toDec) := by
+  unfold hostinfo
+  simp only [hr, hostinfoRaw_hp host port v6ok hw, portText]
+
+theorem hostnameOf_text (h : Str) (hne : h ≠ []) (hp : ∀ x ∈ h, x ≠ '%') :
+    hostnameOf h = some (h.map Char.toLower) := by
+  unfold hostnameOf
+  rw [if_neg hne, partition_none '%' h hp]
+  simp
+
+theorem hostnameOf_host (v6ok : Str → Bool) (host : Option Host) (hw : ∀ h, host = some h → h.WF v6ok) :
+    hostnameOf ((host.map Host.text).getD []) = host.map (fun h => h.text.map Char.toLower) := by
+  cases host with
+  | none => rfl
+  | some h =>
+    have hwf := hw _ rfl
+    cases h with
+    | name h =>
+      simp only [Host.WF] at hwf
+      simpa [Host.text] using hostnameOf_text h hwf.1 (ne_of_class hwf.2 '%' (by decide))
+    | v6 h =>
+      simp only [Host.WF] at hwf
+      simpa [Host.text] using hostnameOf_text h hwf.1 (ne_of_class hwf.2.1 '%' (by decide))
+
+/-! ### userinfo -/
+
+/-- the username text `urlparse` reports for a rendered userinfo -/
+def uiUser : Option Str → Option Str → Option Str
+  | none, none => none
+  | some u, none => some (quote u)
+  | u, some _ => some (quote (u.getD []))
+
+def uCh (x : Char) : Bool := tok x || x == ':' || x == '@'
+
+theorem renderUserinfo_class (u p : Option Str) : ∀ x ∈ renderUserinfo u p, uCh x = true := by
+  intro x hx
+  have ht : ∀ (s : Str) x, x ∈ quote s → uCh x = true := fun s x hx => by
+    simp [uCh, quote_tok s x hx]
+  cases u <;> cases p <;>
+    simp only [renderUserinfo, List.mem_append, List.mem_cons, List.not_mem_nil, or_false,
+      Option.getD_none, Option.getD_some] at hx
+  · rcases hx with (hx | rfl | hx) | rfl
+    · exact ht _ _ hx
+    · decide
+    · exact ht _ _ hx
+    · decide
+  · rcases hx with hx | rfl
+    · exact ht _ _ hx
+    · decide
+  · rcases hx with (hx | rfl | hx) | rfl
+    · exact ht _ _ hx
+    · decide
+    · exact ht _ _ hx
+    · decide
+
+theorem userinfo_render (u p : Option Str) (HP : Str) (hHP : ∀ x ∈ HP, x ≠ '@') :
+    userinfo (renderUserinfo u p ++ HP) = (uiUser u p, p.map quote) ∧
+    (rpartition '@' (renderUserinfo u p ++ HP)).2.2 = HP := by
+  have hq : ∀ (s : Str), ∀ x ∈ quote s, x ≠ ':' := fun s x hx => (tok_props x (quote_tok s x hx)).2.2.2.2.1
+  have case2 : ∀ (a b : Str), userinfo ((quote a ++ ':' :: quote b ++ ['@']) ++ HP) =
+      (some (quote a), some (quote b)) ∧
+      (rpartition '@' ((quote a ++ ':' :: quote b ++ ['@']) ++ HP)).2.2 = HP := by
+    intro a b
+    have e : (quote a ++ ':' :: quote b ++ ['@']) ++ HP = (quote a ++ ':' :: quote b) ++ '@' :: HP := by
+      simp
+    rw [e]
+    have := rpartition_found '@' (quote a ++ ':' :: quote b) HP hHP
+    simp only [userinfo, this, partition_found ':' (quote a) (quote b) (hq a), and_self]
+  cases u with
+  | none =>
+    cases p with
+    | none =>
+      have := rpartition_none '@' HP hHP
+      simp [renderUserinfo, userinfo, this, uiUser]
+    | some b =>
+      have := case2 [] b
+      simpa [renderUserinfo, uiUser] using this
+  | some a =>
+    cases p with
+    | none =>
+      have e : (quote a ++ ['@']) ++ HP = quote a ++ '@' :: HP := by simp
+      have := rpartition_found '@' (quote a) HP hHP
+      simp only [renderUserinfo, uiUser, Option.map_none, e, userinfo, this,
+        partition_none ':' (quote a) (hq a), and_self]
+    | some b =>
+      have := case2 a b
+      simpa [renderUserinfo, uiUser] using this
+
+/-- the credential that reaches the parameters: `unquote(<reported text> or 'guest')` -/
+theorem cred_some (s : Str) : unquote (strOr (some (quote s)) guest) = orDefault (some s) guest := by
+  unfold strOr orDefault
+  by_cases h : s = []
+  · subst h
+    simp only [quote, List.flatMap_nil, if_true]
+    exact unquote_noPct guest (by decide)
+  · simp only [quote_ne_nil s h, h, if_false]
+    exact unquote_quote s
+
+theorem cred_none : unquote (strOr none guest) = guest := unquote_noPct guest (by decide)
+
+/-! ### host/port part -/
+
+def hpCh (x : Char) : Bool := x.isAlphanum || x == '-' || x == '.' || x == '_' || x == ':' || x == '[' || x == ']'
+
+theorem renderHP_class (v6ok : Str → Bool) (host : Option Host) (port : Option Nat)
+    (hw : ∀ h, host = some h → h.WF v6ok) :
+    ∀ x ∈ renderHost host ++ renderPort port, hpCh x = true := by
+  intro x hx
+  have hd : ∀ x, pCh x = true → hpCh x = true := by
+    intro x h
+    simp only [pCh, Bool.or_eq_true, beq_iff_eq] at h
+    rcases h with h | h
+    · simp [hpCh, Char.isAlphanum, h]
+    · subst h; decide
+  have hh : ∀ x, hostCh x = true → hpCh x = true := by
+    intro x h
+    simp only [hostCh, Bool.or_eq_true, beq_iff_eq] at h
+    rcases h with ((h | h) | h) | h
+    · simp [hpCh, h]
+    all_goals (subst h; decide)
+  have h6 : ∀ x, v6Ch x = true → hpCh x = true := by
+    intro x h
+    simp only [v6Ch, Bool.or_eq_true, beq_iff_eq] at h
+    rcases h with (h | h) | h
+    · simp [hpCh, h]
+    all_goals (subst h; decide)
+  rcases List.mem_append.1 hx with hx | hx
+  · cases host with
+    | none => simp [renderHost] at hx
+    | some h =>
+      have hwf := hw _ rfl
+      cases h with
+      | name h => exact hh x (hwf.2 x hx)
+      | v6 h =>
+        simp only [renderHost, List.mem_cons, List.mem_append, List.not_mem_nil, or_false] at hx
+        rcases hx with (rfl | hx) | rfl
+        · decide
+        · exact h6 x (hwf.2.1 x hx)
+        · decide
+  · exact hd x (renderPort_class port x hx)
+
+theorem urlCh_of_hpCh (c : Char) (h : hpCh c = true) : urlCh c = true := by
+  simp only [hpCh, Bool.or_eq_true, beq_iff_eq] at h
+  rcases h with (((((h | h) | h) | h) | h) | h) | h
+  · exact urlCh_of_alnum c h
+  all_goals (subst h; decide)
+
+theorem urlCh_of_uCh (c : Char) (h : uCh c = true) : urlCh c = true := by
+  simp only [uCh, Bool.or_eq_true, beq_iff_eq] at h
+  rcases h with (h | h) | h
+  · exact urlCh_of_tok c h
+  all_goals (subst h; decide)
+
+/-- bracket facts of a rendered netloc -/
+theorem netloc_brackets (v6ok : Str → Bool) (UI : Str) (hUI : ∀ x ∈ UI, uCh x = true)
+    (host : Option Host) (port : Option Nat) (hw : ∀ h, host = some h → h.WF v6ok) :
+    let NL := UI ++ (renderHost host ++ renderPort port)
+    NL.contains '[' = NL.contains ']' ∧ (NL.contains '[' = true → v6ok (bracketed NL) = true) := by
+  intro NL
+  have hp := renderPort_class port
+  have plain : (∀ x ∈ renderHost host, hostCh x = true) →
+      NL.contains '[' = NL.contains ']' ∧ (NL.contains '[' = true → v6ok (bracketed NL) = true) := by
+    intro hh
+    have hno : ∀ d, uCh d = false → hostCh d = false → pCh d = false → ∀ x ∈ NL, x ≠ d := by
+      intro d h1 h2 h3 x hx
+      simp only [NL, List.mem_append] at hx
+      rcases hx with hx | hx | hx
+      · exact class_ne uCh x d (hUI x hx) h1
+      · exact class_ne hostCh x d (hh x hx) h2
+      · exact class_ne pCh x d (hp x hx) h3
+    have h1 := contains_false '[' NL (hno '[' (by decide) (by decide) (by decide))
+    have h2 := contains_false ']' NL (hno ']' (by decide) (by decide) (by decide))
+    rw [h1, h2]
+    simp
+  cases host with
+  | none => exact plain (by simp [renderHost])
+  | some h =>
+    have hwf := hw _ rfl
+    cases h with
+    | name h => exact plain (by simpa [renderHost] using hwf.2)
+    | v6 h =>
+      simp only [Host.WF] at hwf
+      have e : NL = UI ++ '[' :: (h ++ ']' :: renderPort port) := by simp [NL, renderHost]
+      have c1 : NL.contains '[' = true := by rw [e]; simp
+      have c2 : NL.contains ']' = true := by rw [e]; simp
+      refine ⟨by rw [c1, c2], fun _ => ?_⟩
+      have hb : bracketed NL = h := by
+        rw [e]
+        unfold bracketed
+        rw [partition_found '[' UI _ (ne_of_class hUI '[' (by decide))]
+        simp only []
+        rw [partition_found ']' h _ (ne_of_class hwf.2.1 ']' (by decide))]
+      rw [hb]; exact hwf.2.2
+
 end Amqp.Uri
